@@ -221,6 +221,17 @@ REVERTS = [
      """            if len(df):
 """, """            if not df.empty:
 """),
+    ('revert-F55-narrowing-integer-cast', ['C07', 'C18', 'C19'], 'fastparquet/writer.py',
+     """                if (out != data.values).any():
+""", """                if False:
+"""),
+    ('revert-F56-empty-codec-spec', ['C02'], 'fastparquet/writer.py',
+     """    if isinstance(compression, dict) and not compression:
+""", """    if False:
+"""),
+    ('revert-F57-selection-footer-num-rows', ['C02', 'C06'], 'fastparquet/api.py',
+     """        fmd.num_rows = sum(rg.num_rows for rg in new_rgs)
+""", ""),
 ]
 
 # functions whose twins are run per property (module, qualname)
